@@ -242,62 +242,101 @@ def is_set_of(li, e, it, p, xterm):
     return False
 
 
-def check_producers(ctx, rep, loops, only_owner=None, minus_for=None, rule="R-WAKE-P"):
-    """every enabling mutation is followed by set() (in the function or in all its callers)"""
+def producer_roots(ctx, li, include_worker=False):
+    """entry points through which other threads change the state a worker loop waits for: the executor's public
+    methods, the callbacks it registers (methods, classmethods bound with partial, module functions) and cancel()
+    of the futures that refer to it.  The worker's own thread is not a producer (what it changes it re-scans:
+    R-WAKE-L)."""
+    from . import roles
     prog = ctx.prog
-    callers = ctx.callgraph()
+    owner = li.owner
+    out = []
+    seen = set()
+
+    def add(m, ci, why):
+        k = (m.key, ci.key if ci else None)
+        if k not in seen and m is not li.target:
+            seen.add(k)
+            out.append((m, ci, why))
+    for c in owner.mro():
+        if hasattr(c, "methods"):
+            for n, m in c.methods.items():
+                if owner.lookup(n)[1] is m and not n.startswith("_"):
+                    add(m, owner, "public method")
+    own = set(m.key for c in owner.mro() if hasattr(c, "methods") for m in c.methods.values())
+    for c in owner.mro():
+        if not hasattr(c, "methods"):
+            continue
+        for m in c.methods.values():
+            if owner.lookup(m.name)[1] is not m:
+                continue
+            ps, it = ctx.paths(m, owner, depth=3, inline=lambda callee, ev, path: callee.key in own and callee.name != "__init__")
+            for p in ps:
+                for e in p.calls():
+                    if q.call_name(e) != "add_done_callback" or not e.d["args"]:
+                        continue
+                    cb = roles.unwrap(ctx, p, e.d["args"][0], it)
+                    if isinstance(cb, tuple) and cb and cb[0] == "partial":
+                        cb = cb[1]
+                    if isinstance(cb, tuple) and cb and cb[0] == "attr":
+                        o, mm = owner.lookup(cb[2])
+                        if mm is not None and it.type_of(cb[1], p) in (None, "C:" + owner.key) or (mm is not None and cb[1] == ("param", "self")):
+                            add(mm, owner, "registered callback")
+                    elif isinstance(cb, tuple) and cb and cb[0] == "func":
+                        f = prog.functions.get(cb[1])
+                        if f is not None:
+                            add(f, None, "registered callback")
+    P = roles.proto(ctx)
+    for fc in prog.subclasses(P.fut, strict=True):
+        if any(ck == fc.key and ("C:" + owner.key) in ts for (ck, f), ts in ctx.types.field_types.items()):
+            add(P.fut.methods["cancel"], fc, "cancel() of its futures")
+            for mm, recv in roles.registered_callbacks(ctx, fc).values():
+                add(mm, fc, "callback registered by its futures")
+    if include_worker:
+        seen.discard((li.target.key, None))
+        out.append((li.target, li.target.owner, "the worker itself"))
+    return out
+
+
+def check_producers(ctx, rep, loops, only_owner=None, minus_for=None, rule="R-WAKE-P"):
+    """every enabling mutation performed by another thread is followed by set() of the worker's event, on every path
+    of the entry point that performs it (helpers inlined)"""
+    from . import roles
     for li in loops:
         if only_owner and li.owner.name not in only_owner:
             continue
-        unbalanced = {}
-        good = {}
-        for fi in sorted(prog.functions.values(), key=lambda f: f.key):
-            if fi.parent is not None or fi is li.target:
-                continue
-            # only functions that can reach the owner's state
-            for ci in ctx.instances(fi):
-                ps, it = ctx.paths(fi, ci)
-                for p in ps:
-                    if p.status == "raise":
-                        continue
-                    for e in p.events:
-                        m = mutation_of(li, e, it, p) or counter_change(li, e, it, p)
-                        if not m:
-                            continue
-                        sign, what, xterm = m
-                        enabling = (sign == "+" and "value" not in what) or (sign == "-" and "value" in what)
-                        if minus_for is not None:
-                            # report each dequeue/removal once, in the function that performs it
-                            enabling = sign == "-" and "value" not in what and e.fn is fi
-                        if not enabling:
-                            continue
-                        later = [x for x in p.events if x.seq > e.seq and is_set_of(li, x, it, p, xterm)]
-                        key = (fi.key, what)
-                        if later:
-                            good.setdefault(key, (fi, e, p))
-                        else:
-                            unbalanced.setdefault(key, (fi, e, p, ci))
         nfound = 0
-        def label(fi, what):
-            # constructs are named by owner class and operation, not by the (private, renameable) function
-            if minus_for is not None:
-                return "%s: %s is followed by set() of the worker's event" % (li.owner.name, _role_name(ctx, li, what))
-            return "%s: %s is followed by %s.set()" % (fi.qualname, what, li.event_field)
-        for key, (fi, e, p) in sorted(good.items()):
-            if key in unbalanced:
-                continue
-            nfound += 1
-            rep.ob(rule, label(fi, key[1]), True, "", where_of(e.fn, e.node))
-        for key, (fi, e, p, ci) in sorted(unbalanced.items()):
-            nfound += 1
-            # excused if the mutation happens in a helper and every caller path sets the event afterwards:
-            # those callers were analysed with the helper inlined, so they appear in good/unbalanced themselves
-            cs = callers.get(e.fn.key, set()) if e.fn is not fi else callers.get(fi.key, set())
-            excused = False
-            if e.fn is fi and cs:
-                excused = all(((ck, key[1]) in good and (ck, key[1]) not in unbalanced) for ck, _ in cs)
-            rep.ob(rule, label(fi, key[1]), excused,
-                   "%s changes state the %s waits for, but no %s.set() follows on path [%s]" % (key[1], li.target.qualname, li.event_field, q.path_sig(p)[:100]), where_of(e.fn, e.node), trace_of(p))
+        for m, ci, why in producer_roots(ctx, li, include_worker=minus_for is not None):
+            ps, it = ctx.paths(m, ci, depth=6, inline=roles.std_inline)
+            res = {}
+            for p in ps:
+                if p.status == "raise":
+                    continue
+                for e in p.events:
+                    mu = mutation_of(li, e, it, p) or counter_change(li, e, it, p)
+                    if not mu:
+                        continue
+                    sign, what, xterm = mu
+                    enabling = (sign == "+" and "value" not in what) or (sign == "-" and "value" in what)
+                    if minus_for is not None:
+                        enabling = sign == "-" and "value" not in what
+                    if not enabling:
+                        continue
+                    later = [x for x in p.events if x.seq > e.seq and is_set_of(li, x, it, p, xterm)]
+                    role = _role_name(ctx, li, what)
+                    cur = res.get(role)
+                    if later:
+                        if cur is None:
+                            res[role] = (True, e, p)
+                    elif cur is None or cur[0]:
+                        res[role] = (False, e, p)
+            for role, (ok, e, p) in sorted(res.items()):
+                nfound += 1
+                if minus_for is not None:
+                    key = "%s: %s is followed by set() of the worker's event" % (li.owner.name, role)
+                else:
+                    key = "%s%s: %s is followed by set() of the worker's event" % (m.qualname, "[%s]" % ci.name if ci is not None and ci is not m.owner else "", role)
+                rep.ob(rule, key, ok, "%s changes state the worker %s waits for, but no set() of its event follows on path [%s] (entry point %s: %s)" % (role, li.target.qualname, q.path_sig(p)[:100], m.qualname, why), where_of(e.fn, e.node), trace_of(p, e.seq))
         if minus_for is None:
             rep.ob(rule, "%s: has producers" % li.target.qualname, nfound > 0, "no enabling mutation of the scanned state found (analysis anchor)", where_of(li.target))
 
@@ -308,6 +347,8 @@ def _role_name(ctx, li, what):
     if "." not in what:
         return what
     f, op = what.split(".", 1)
+    if any(f == cf for cf, sub in li.counters):
+        return "in-flight counter %s" % op.split(" ", 1)[-1]
     ts = set()
     for c in li.owner.mro():
         if hasattr(c, "key"):
